@@ -787,6 +787,9 @@ struct Runner<'a, D: KvDatabase, F: Fam> {
     /// operations keep their relative order)
     pad: usize,
     pad_seq: u64,
+    /// where the padding goes: "before" every buffered model operation (default), "after" the last one
+    /// (when the buffer is consumed), or "both"
+    pad_pos: String,
     _f: std::marker::PhantomData<F>,
 }
 
@@ -971,24 +974,20 @@ impl<D: KvDatabase, F: Fam> Runner<'_, D, F> {
                     apply_real::<F, _>(&mut Wb(b), &op);
                     s.push(sh);
                 } else {
-                    let (pad, mut seq) = (self.pad, self.pad_seq);
+                    let pad = if self.pad_pos == "after" { 0 } else { self.pad };
                     let (b, s) = self.bufs[h].as_mut().expect("open buffer");
-                    for i in 0..pad {
-                        seq += 1;
-                        match i % 3 {
-                            0 => b.put::<ProbeCol, ProbeVal>(&(seq % 97), &ProbeVal(seq, vec![])),
-                            1 => b.insert_member::<PadSet>(&(seq % 89), &seq),
-                            _ => b.delete_member::<PadSet>(&(seq % 89), &(seq - 1)),
-                        }
-                    }
-                    self.pad_seq = seq;
+                    pad_buffer(b, pad, &mut self.pad_seq);
                     apply_real::<F, _>(&mut Sb(b), &op);
                     s.push(sh);
                 }
             }
             "consume" => {
                 let s = ev["s"].as_u64().unwrap() as usize - 1;
-                let (buf, bsh) = self.bufs[s].take().expect("open buffer");
+                let (mut buf, bsh) = self.bufs[s].take().expect("open buffer");
+                // padding behind the model's operations ("after" / "both")
+                if self.pad_pos != "before" && !bsh.is_empty() {
+                    pad_buffer(&mut buf, self.pad * bsh.len().min(2), &mut self.pad_seq);
+                }
                 let (b, sh) = self.batches[h].as_mut().expect("open batch");
                 b.consume_serialization_buffer(buf);
                 sh.extend(bsh);
@@ -1065,6 +1064,18 @@ impl<D: KvDatabase, F: Fam> Runner<'_, D, F> {
     }
 }
 
+/// `n` writes to two columns outside the model (interleaved: wide put, member insert, member delete)
+fn pad_buffer<S: SerializationBuffer>(b: &mut S, n: usize, seq: &mut u64) {
+    for i in 0..n {
+        *seq += 1;
+        match i % 3 {
+            0 => b.put::<ProbeCol, ProbeVal>(&(*seq % 97), &ProbeVal(*seq, vec![])),
+            1 => b.insert_member::<PadSet>(&(*seq % 89), &*seq),
+            _ => b.delete_member::<PadSet>(&(*seq % 89), &(*seq - 1)),
+        }
+    }
+}
+
 thread_local! {
     /// what the current run is doing (read by the watchdog)
     static PHASE: std::cell::RefCell<Option<Arc<Mutex<String>>>> = const { std::cell::RefCell::new(None) };
@@ -1096,6 +1107,7 @@ fn run_case<D: KvDatabase, F: Fam>(be: Backend, open: &dyn Fn() -> D, case: &Val
         drift: vec![],
         pad: case["pad"].as_u64().unwrap_or(0) as usize,
         pad_seq: 0,
+        pad_pos: case["padpos"].as_str().unwrap_or("before").to_string(),
         _f: std::marker::PhantomData,
     };
     assert!(r.nk <= F::NK && r.nv <= F::NV && r.ne <= F::NE, "family {} too small for the case", F::NAME);
@@ -1107,7 +1119,7 @@ fn run_case<D: KvDatabase, F: Fam>(be: Backend, open: &dyn Fn() -> D, case: &Val
         }
         // epilogue: one more close / reopen and a full comparison (the
         // first-touch behaviours end with exactly that themselves)
-        if case["ft"].as_bool() != Some(true) {
+        if case["ft"].as_bool() != Some(true) && case["bo"].as_bool() != Some(true) {
             phase("final close".into());
             r.close();
             r.db = Some((r.open)());
